@@ -195,6 +195,17 @@ pub fn compare(ctx: &mut Ctx, e: &TyEntry, bytes: &[u8], atoms: &[(usize, usize,
     if model_class != real_class {
         ctx.disagreements.push(json!({"kind": "model-vs-implementation", "case": ctx.case_id, "what": format!("decoding {} ({}): real {} vs model {}", e.name, what, real_class, ans),
             "type": e.name, "expr": e.expr, "bytes": hex::encode(bytes)}));
+        // the model's verdict is the type invariant (proved: everything it accepts satisfies `wf`, everything satisfying
+        // `wf` is accepted): a byte string the real decoder accepts although the invariant forbids it — or refuses
+        // although it is the canonical encoding of a well-formed value — is a concrete failing input
+        if matches!(real, Outc::Ok { .. }) && model_class == "v:err" {
+            ctx.violation(&format!("the {} decoder accepts a byte string ({}) that violates the type's decode-time invariant", e.name, what),
+                json!({"class": format!("decoder-accepts-invalid:{}", what.split('@').next().unwrap_or(what)), "type": e.name, "bytes": hex::encode(bytes)}));
+        }
+        if matches!(real, Outc::Err) && model_class.starts_with("v:ok") {
+            ctx.violation(&format!("the {} decoder refuses a byte string ({}) that is the canonical encoding of a well-formed value", e.name, what),
+                json!({"class": format!("decoder-refuses-valid:{}", what.split('@').next().unwrap_or(what)), "type": e.name, "bytes": hex::encode(bytes)}));
+        }
     }
     (real, maxalloc, ans)
 }
@@ -381,6 +392,25 @@ pub fn run_c16(ctx: &mut Ctx) {
         let mut ext = bytes.clone(); ext.extend(vec![0xab; 17]);
         inputs.push(("extended".into(), ext));
         inputs.push(("empty".into(), vec![]));
+        // every integer / scalar atom set to the extremes of its range (validators that negate, add or convert
+        // a decoded number must survive them): i64::MIN / -1 / i64::MAX, u64 2^63 / 2^64-1, u8 255, scalar q-1 / q / 2^256-1
+        {
+            let stride = if bytes.len() > 20000 { atoms.len() / 3 + 1 } else if atoms.len() <= 60 || ctx.thorough() { 1 } else { atoms.len() / 60 + 1 };
+            for (ai, (o, l, k)) in atoms.iter().enumerate() {
+                if ai % stride != 0 && *k != 'i' && *k != 'u' { continue; }
+                let vals: Vec<(&str, Vec<u8>)> = match k {
+                    'i' | 'u' => vec![("int-min", i64::MIN.to_le_bytes().to_vec()), ("int-minus-one", (-1i64).to_le_bytes().to_vec()), ("int-max", i64::MAX.to_le_bytes().to_vec()), ("int-zero", vec![0u8; 8]), ("int-min-plus-one", (i64::MIN + 1).to_le_bytes().to_vec())],
+                    'b' => vec![("byte-255", vec![255u8]), ("byte-0", vec![0u8])],
+                    'S' => vec![("scalar-q-minus-1", dl_q_minus_1()), ("scalar-q", plus_q(&[0u8; 32])), ("scalar-all-ones", vec![0xffu8; 32]), ("scalar-zero", vec![0u8; 32])],
+                    _ => vec![],
+                };
+                for (what, v) in vals {
+                    let mut b = bytes.clone();
+                    b[*o..*o + *l].copy_from_slice(&v);
+                    inputs.push((format!("atom-extreme-{}", what), b));
+                }
+            }
+        }
         for _ in 0..(if ctx.thorough() { 40 } else { 6 }) {
             let len = match ctx.prng.gen_range(0..3) { 0 => bytes.len(), 1 => ctx.prng.gen_range(0..=bytes.len().min(300)), _ => ctx.prng.gen_range(0..64) };
             inputs.push(("random".into(), (0..len).map(|_| ctx.prng.gen()).collect()));
@@ -410,16 +440,36 @@ pub fn run_c16(ctx: &mut Ctx) {
     }
 }
 
+fn dl_q_minus_1() -> Vec<u8> { crate::dl::q_minus_1().to_bytes().to_vec() }
+/// the 256-bit little-endian integer `b + q` (wrapping)
+fn plus_q(b: &[u8; 32]) -> Vec<u8> {
+    const Q: [u64; 4] = [0xffff_ffff_0000_0001, 0x53bd_a402_fffe_5bfe, 0x3339_d808_09a1_d805, 0x73ed_a753_299d_7d48];
+    let mut out = vec![0u8; 32];
+    let mut carry = 0u128;
+    for i in 0..4 {
+        let mut a = [0u8; 8]; a.copy_from_slice(&b[8 * i..8 * i + 8]);
+        let t = u64::from_le_bytes(a) as u128 + Q[i] as u128 + carry;
+        out[8 * i..8 * i + 8].copy_from_slice(&(t as u64).to_le_bytes());
+        carry = t >> 64;
+    }
+    out
+}
+
 /// decode in a child process (the pinned `Vec` visitor may abort the process on a huge length prefix)
 fn compare_isolated(ctx: &mut Ctx, e: &TyEntry, bytes: &[u8], atoms: &[(usize, usize, char)], what: &str) -> (Outc, usize, String) {
     let exe = std::env::current_exe().expect("current exe");
-    let out = (|| -> std::io::Result<std::process::Output> {
+    let run = || -> std::io::Result<std::process::Output> {
         use std::io::Write;
-        let mut ch = std::process::Command::new(exe).arg("--decode-one").arg(e.name).arg("-")
+        let mut ch = std::process::Command::new(&exe).arg("--decode-one").arg(e.name).arg("-")
             .stdin(std::process::Stdio::piped()).stdout(std::process::Stdio::piped()).stderr(std::process::Stdio::null()).spawn()?;
         ch.stdin.take().unwrap().write_all(hex::encode(bytes).as_bytes())?;
         ch.wait_with_output()
-    })();
+    };
+    // the binary may be momentarily absent while another check re-links it: retry the spawn for a few seconds
+    let mut out = run();
+    for _ in 0..40 {
+        match &out { Err(err) if err.kind() == std::io::ErrorKind::NotFound || err.raw_os_error() == Some(26) => { std::thread::sleep(std::time::Duration::from_millis(250)); out = run(); } _ => break }
+    }
     let (real, maxalloc) = match out {
         Ok(o) if o.status.success() => {
             let s = String::from_utf8_lossy(&o.stdout).to_string();
